@@ -17,6 +17,7 @@ import (
 )
 
 type Ctx struct {
+	LegacySiteOrder bool // development aid: the historical (not strictly ordered) numbering of instruction sites
 	NoReach   bool // do not emit reachability guards after calls
 	Reg       *Registry
 	Fset      *token.FileSet
